@@ -121,6 +121,9 @@ def check(ctx):
     repo = ctx.repo
     ctx.rule("R14.1", "writer and reader of each serialisable class agree on the key set; conditionally written keys are "
                       "read conditionally; the reader feeds every constructor parameter", 12)
+    ctx.rule("R14.7", "readers never replace a stored value by a default through truthiness (`stored or default`): 0, 0.0, False and "
+                      "empty arrays are legitimate stored values", 6)
+    ctx.rule("R14.8", "equality of sequences of sub-objects compares lengths (no silent truncation by zip)", 2)
     ctx.rule("R14.2", "options: None values are dropped on save, so every Optional field must default to None "
                       "(or the reader must restore None)", 1)
     ctx.rule("R14.3", "Mesh.is_restorable tests exactly the keys the full writer creates; the restoring constructor uses them all", 2)
@@ -208,6 +211,8 @@ def check(ctx):
                message=f"{cls}.{rname} does not pass {missing}",
                consequence="the reloaded object silently takes the default for that field")
 
+    stored_value_defaulting(ctx)
+    equality_truncation(ctx)
     options_none(ctx)
     mesh_restorable(ctx)
     getstate_slots(ctx)
@@ -392,3 +397,63 @@ def pm_parent_if(fn, node):
             return None
         cur = par
     return None
+
+
+def _reads_h5(e: ast.AST) -> bool:
+    for n in ast.walk(e):
+        if isinstance(n, ast.Subscript) and isinstance(n.value, (ast.Name, ast.Attribute)) and (
+                norm(n.value).endswith("attrs") or any(t in norm(n.value) for t in ("group", "h5", "grp"))):
+            return True
+        if isinstance(n, ast.Call) and isinstance(n.func, ast.Attribute) and n.func.attr == "get" and norm(n.func.value).endswith("attrs"):
+            return True
+    return False
+
+
+def stored_value_defaulting(ctx):
+    repo = ctx.repo
+    readers = [f for f in repo.all_functions() if f.qual.split(".")[-1] in ("from_hdf5", "get", "deserialize_func", "load_state_data")
+               and ("from_hdf5" in f.qual)]
+    n = 0
+    for f in readers:
+        bad = []
+        for node in ast.walk(f.node):
+            if isinstance(node, ast.BoolOp) and isinstance(node.op, ast.Or) and _reads_h5(node.values[0]):
+                bad.append(f"L{node.lineno}: {norm(node)[:90]}")
+            if isinstance(node, ast.IfExp) and _reads_h5(node.test) and not isinstance(node.test, ast.Compare):
+                bad.append(f"L{node.lineno}: {norm(node)[:90]}")
+        n += 1
+        ctx.ob("R14.7", f"{f.qual}: no `stored or default`", not bad, detail=bad, where=f.fq, construct=f"truthiness defaulting in {f.qual}",
+               loc=loc(f, f.node), message=f"{f.qual} replaces falsy stored values by a default: {bad}",
+               consequence="an object saved with a legitimate falsy field (gamma=0, z0=0, mesh=False, ...) reloads with the default instead",
+               witness={"input": "Layer(..., gamma=0) saved and reloaded"})
+    if n < 6:
+        raise AnalysisError(f"only {n} from_hdf5 readers found")
+
+
+def equality_truncation(ctx):
+    repo = ctx.repo
+    n = 0
+    for f in repo.all_functions():
+        last = f.qual.split(".")
+        if not any(x in ("__eq__", "equals", "dataclass_equals", "compare") for x in last):
+            continue
+        n += 1
+        bad = []
+        src = norm(f.node)
+        for node in ast.walk(f.node):
+            if isinstance(node, ast.Call) and norm(node.func) == "zip" and len(node.args) >= 2:
+                a, b = norm(node.args[0]), norm(node.args[1])
+                # accepted: both operands are dataclasses.astuple(...) of objects whose classes were compared, or a len() comparison exists
+                len_checked = "len(" in src and ("!=" in src or "==" in src) and any(
+                    isinstance(c, ast.Compare) and all(isinstance(x, ast.Call) and norm(x.func) == "len" for x in [c.left] + c.comparators)
+                    for c in ast.walk(f.node))
+                same_class_tuples = "__class__ is not" in src and "astuple" in src
+                if not (len_checked or same_class_tuples):
+                    bad.append(f"L{node.lineno}: {norm(node)[:80]}")
+        ctx.ob("R14.8", f"{f.qual}: sequence comparison does not truncate", not bad, detail=bad, nontrivial=bool("zip(" in src),
+               where=f.fq, construct=f"zip in {f.qual}", loc=loc(f, f.node),
+               message=f"{f.qual} compares two sequences element-wise with zip and never compares their lengths: {bad}",
+               consequence="devices with different numbers of holes/terminals compare equal: a seed solution from another device is "
+                           "accepted, and a reloaded device 'equals' one with an extra hole")
+    if n < 5:
+        raise AnalysisError(f"only {n} equality functions found")
